@@ -53,7 +53,9 @@ def corpus_for(rule):
         return words + [w.lower() for w in words] + [w.upper() for w in words] + [words[0][:-1], words[0] + " x", "", "0", "1"]
     if kind == "hex":
         n = rule[1]
-        return ["a" * n, "A" * n, "0" * n, "f" * (n - 1), "f" * (n + 1), "g" + "0" * (n - 1), "0" * (n - 1) + "ｆ", "", "٠" * n, "0x" + "0" * (n - 2), " " + "0" * (n - 1)]
+        return ["a" * n, "A" * n, "0" * n, "f" * (n - 1), "f" * (n + 1), "g" + "0" * (n - 1), "0" * (n - 1) + "ｆ", "", "٠" * n, "0x" + "0" * (n - 2), " " + "0" * (n - 1),
+                # right length, blanks between / in front of the byte pairs (hex readers that skip whitespace)
+                "ff" + " " * (n - 4) + "aa", " ff" + " " * (n - 5) + "aa", "ff\t" + "a" * (n - 3), "f f" + "0" * (n - 3), "ff" + "\xa0" * (n - 4) + "aa", "+" + "f" * (n - 1), "-" + "f" * (n - 1), "ff_" + "f" * (n - 3)]
     return CORPUS[kind]
 
 
@@ -183,6 +185,8 @@ _numtext = st.one_of(
     st.floats(allow_nan=False, allow_infinity=False, min_value=-200, max_value=200).map(lambda f: f"{f:.4f}".rstrip("0").rstrip(".") if "e" not in repr(f) else "0"),
     st.from_regex(r"-?[0-9]{1,3}(\.[0-9]{1,3})?", fullmatch=True),
     st.from_regex(r"[0-9a-fA-F]{5,9}", fullmatch=True),
+    st.from_regex(r"[0-9a-f \t]{6}", fullmatch=True).filter(codec.carriable),
+    st.from_regex(r"[0-9a-f \t]{8}", fullmatch=True).filter(codec.carriable),
     st.from_regex(r"-?[0-9]{1,2}(\.[0-9]{1,2})?,-?[0-9]{1,3},[0-9]{1,3}", fullmatch=True),
     st.from_regex(r"[0-3]\.[0-9]{1,2}(\.[0-9])?", fullmatch=True),
 )
